@@ -98,6 +98,17 @@ def HandMade():
                 ('c', Y, 'Count'), ('am', Op('->', Y, X), 'ArgMin')],
           [Exy()], True)],
       True, sig={'P': {'s': NUM, 'l': L(STR), 'm': STR, 'c': NUM, 'am': STR}})
+  Add('count_arguments_differ',
+      [Pred('P', [Rule([('c', X, 'Count')], [Exy()], True),
+                  Rule([('c', Y, 'Count')], [Exy()], True)])], False)
+  Add('count_arguments_agree',
+      [Pred('P', [Rule([('c', Y, 'Count')], [Exy()], True),
+                  Rule([('c', Op('++', Y, Lit(S('u'))), 'Count')], [Exy()],
+                       True)])], True, sig={'P': {'c': NUM}})
+  Add('argmin_values_differ',
+      [Pred('P', [Rule([('c', Op('->', X, X), 'ArgMin')], [Exy()], True),
+                  Rule([('c', Op('->', X, Y), 'ArgMin')], [Exy()], True)])],
+      False)
   Add('sum_of_str', [P1('P', [('s', Y, 'Sum')], [Exy()], True)], False)
   zw = Atom('E', [('col0', Z), ('col1', Var('w'))])
   wz = Atom('E', [('col0', Var('w')), ('col1', Z)])
